@@ -4,6 +4,9 @@ import (
 	"bytes"
 	"encoding/binary"
 	"fmt"
+	"io"
+	"runtime"
+	"sync"
 	"testing"
 
 	"github.com/fiorix/go-diameter/v4/diam"
@@ -371,17 +374,120 @@ func TestC04(t *testing.T) {
 			c.Event("ref_misframed", 1)
 		}
 	})
+	optsFor := func(ctx *lib.Ctx, app uint32) *rawOpts {
+		key := fmt.Sprintf("%s/%d", ctx.Name, app)
+		o := opts[key]
+		if o == nil {
+			o = &rawOpts{ctx: ctx, app: app}
+			o.prepare()
+			opts[key] = o
+		}
+		return o
+	}
+	// how the bytes arrive must not matter: a transport fault in the middle of a body
+	// (the read either fails or reports exactly the AVPs of the walk), and several
+	// connections reading at the same time after the process has seen a large message
+	rec.Suite("delivery", rec.N(3000, 300000), func(c *ev.Case) {
+		r := c.R
+		G := 1 + r.IntN(4)
+		type item struct {
+			ctx  *lib.Ctx
+			wire []byte
+			ref  []refTree
+			tail []byte
+		}
+		var items []item
+		for len(items) < G {
+			ctx := ctxs[r.IntN(2)]
+			h, _ := ctx.Header(r, ctx.Cmds)
+			o := optsFor(ctx, h.App)
+			o.inject, o.injected = false, ""
+			var classes []string
+			body := rawList(c, o, 0, &classes)
+			h.Length = uint32(20 + len(body))
+			if h.Length > 0xFFFFFF {
+				continue
+			}
+			var facts refFacts
+			ref, rerr := frameTree(body, ctx.TypeFunc(h.App), &facts)
+			if rerr != nil || facts.addrInvalid || facts.missingPad {
+				continue
+			}
+			wire := append(refcodec.EncodeHeader(h), body...)
+			// a following message, so that bytes taken from beyond the body have somewhere to come from
+			tail := seqMsg(uint32(c.I+1), 12+4*r.IntN(6))
+			items = append(items, item{ctx, wire, ref, tail})
+		}
+		if c.I%64 < 16 {
+			// earlier traffic of the process: a body above the 64 KiB step of the body reader
+			if _, err := diam.ReadMessage(bytes.NewReader(seqMsgMulti(7, 66000+4*r.IntN(5000))), ctxs[0].Parser); err != nil {
+				c.Fail(ev.Sig{"op": "rejected-wellframed", "how": "large"}, nil, nil, "a well-framed large message was rejected: %v", err)
+				return
+			}
+		}
+		fault := G == 1
+		c.Class("delivery/G=%d/fault=%v/after-large=%v", G, fault, c.I%64 < 16)
+		type res struct {
+			m       *diam.Message
+			err     error
+			pan     string
+			faultAt int
+		}
+		out := make([]res, G)
+		var wg sync.WaitGroup
+		start := make(chan struct{})
+		for g := 0; g < G; g++ {
+			it := items[g]
+			stream := append(append([]byte(nil), it.wire...), it.tail...)
+			var rd io.Reader
+			if fault {
+				at := r.IntN(len(it.wire) + 1)
+				out[g].faultAt = at
+				rd = &faultReader{b: stream, at: at, timeout: r.IntN(2) == 0, chunk: 1 + r.IntN(64)}
+			} else {
+				rd = &yieldReader{b: stream, chunk: 8 + r.IntN(200)}
+			}
+			wg.Add(1)
+			go func() {
+				defer wg.Done()
+				<-start
+				p, bad := guard(func() { out[g].m, out[g].err = diam.ReadMessage(rd, it.ctx.Parser) })
+				if bad {
+					out[g].pan = p
+				}
+			}()
+		}
+		close(start)
+		wg.Wait()
+		for g, o := range out {
+			it := items[g]
+			how := fmt.Sprintf("%d connections reading at the same time", G)
+			if fault {
+				how = fmt.Sprintf("one temporary read error after %d of the message's %d bytes", o.faultAt, len(it.wire))
+			}
+			switch {
+			case o.pan != "":
+				c.Fail(ev.Sig{"op": "panic", "site": panicSite(o.pan), "how": "delivery"}, it.wire, nil, "ReadMessage panicked (%s): %s", how, o.pan)
+				return
+			case o.err != nil && !fault:
+				c.Fail(ev.Sig{"op": "rejected-wellframed", "how": "delivery"}, it.wire, nil, "well-framed message rejected (%s): %v", how, o.err)
+				return
+			case o.err != nil:
+				c.Event("fault_reported_as_error", 1)
+			default:
+				if d := compareFraming(o.m.AVP, it.ref, ""); d != "" {
+					c.Fail(ev.Sig{"op": "framing-differs", "how": map[bool]string{true: "after-read-fault", false: "concurrent-reads"}[fault]}, it.wire, nil, "%s: %s", how, d)
+					return
+				}
+				c.Event("delivery_equal", 1)
+			}
+		}
+	})
 	rec.Suite("bodies", n, func(c *ev.Case) {
 		ctx := ctxs[c.I%2]
 		r := c.R
 		h, _ := ctx.Header(r, ctx.Cmds)
-		key := fmt.Sprintf("%s/%d", ctx.Name, h.App)
-		o := opts[key]
-		if o == nil {
-			o = &rawOpts{ctx: ctx, app: h.App}
-			o.prepare()
-			opts[key] = o
-		}
+		o := optsFor(ctx, h.App)
 		o.inject = r.IntN(3) == 0
 		o.injected = ""
 		var classes []string
@@ -473,4 +579,55 @@ func TestC04(t *testing.T) {
 			c.Event("groups_direct", 1)
 		}
 	})
+}
+
+// faultReader delivers b in chunks and reports one temporary error when `at`
+// bytes have been delivered (together with no data), then goes on.
+type faultReader struct {
+	b       []byte
+	off, at int
+	fired   bool
+	timeout bool
+	chunk   int
+}
+
+type tempReadErr struct{ timeout bool }
+
+func (e *tempReadErr) Error() string   { return "temporary read error" }
+func (e *tempReadErr) Timeout() bool   { return e.timeout }
+func (e *tempReadErr) Temporary() bool { return true }
+
+func (f *faultReader) Read(p []byte) (int, error) {
+	if !f.fired && f.off >= f.at {
+		f.fired = true
+		return 0, &tempReadErr{f.timeout}
+	}
+	if f.off >= len(f.b) {
+		return 0, io.EOF
+	}
+	n := min(len(p), f.chunk, len(f.b)-f.off)
+	if !f.fired {
+		n = min(n, f.at-f.off)
+	}
+	copy(p, f.b[f.off:f.off+n])
+	f.off += n
+	return n, nil
+}
+
+// yieldReader delivers b in chunks and yields the processor between them.
+type yieldReader struct {
+	b     []byte
+	off   int
+	chunk int
+}
+
+func (y *yieldReader) Read(p []byte) (int, error) {
+	if y.off >= len(y.b) {
+		return 0, io.EOF
+	}
+	runtime.Gosched()
+	n := min(len(p), y.chunk, len(y.b)-y.off)
+	copy(p, y.b[y.off:y.off+n])
+	y.off += n
+	return n, nil
 }
